@@ -227,7 +227,7 @@ ALPHA_C06 = [
 ]
 ALPHA_C19 = [
     "abcdefghijklmnopqrstuvwxyz0123456789",
-    ",", " ", "[]", "éü€日𝔘", ":*?@.-_/;#{}",
+    ",", " ", "[]", "éü€日𝔘", ":*?@.-_/;#{}", '"', "\\",
     "\u0301\u200b\u200d\u202e\ufeff\u00a0\u212b\ufb01\U0001f600\u0130\u00df\u0131",
 ]
 ALPHA_BENIGN = ["abcdefghijklmnopqrstuvwxyz0123456789", "@.-_"]
